@@ -26,6 +26,21 @@ def _arr(t):
     return t.values if hasattr(t, "values") else np.asarray(t)
 
 
+def crop_key(c):
+    """value-level digest of a season's crop parameters (numbers by value, whatever their Python type; date strings excluded: the default
+    harvest date is derived from the window's first season)"""
+    out = []
+    for k in sorted(vars(c)):
+        v = getattr(c, k)
+        if isinstance(v, str) or v is None:
+            continue
+        try:
+            out.append((k, [hexf(x) for x in np.asarray(v, dtype=float).ravel()]))
+        except Exception:
+            out.append((k, repr(v)))
+    return digest(json.dumps(out))
+
+
 def tables_doc(model):
     out = model._outputs
     cs = model._clock_struct
@@ -46,7 +61,8 @@ def tables_doc(model):
         r = fs.iloc[j]
         stats.append({"date": ordinal(r.iloc[2]), "y": digest([float(r.iloc[4]), float(r.iloc[5]), float(r.iloc[6]), float(r.iloc[7])]),
                       "season": int(r.iloc[0]), "step": int(r.iloc[3]), "crop": str(r.iloc[1])})
-    return {"start": ordinal(cs.simulation_start_date), "rows": rows, "stats": stats, "finished": bool(cs.model_is_finished),
+    crops = [crop_key(c) for c in (getattr(model._param_struct, "Seasonal_Crop_List", None) or [])]
+    return {"start": ordinal(cs.simulation_start_date), "rows": rows, "stats": stats, "finished": bool(cs.model_is_finished), "crops": crops,
             "nfinite": int(np.sum(~np.isfinite(np.delete(flux, FLUX_ZGW, axis=1))) + np.sum(~np.isfinite(grow)) + np.sum(~np.isfinite(stor)))}
 
 
@@ -96,6 +112,12 @@ def transform_weather(df, tr):
         df.index = range(1000, 1000 + len(df))
     elif ix == "datetime":
         df.index = pd.DatetimeIndex(df.Date.values)
+    elif ix == "datetime_shifted":          # a DatetimeIndex that is NOT the Date column (dates 90 days later / at noon / of another year)
+        df.index = pd.DatetimeIndex(df.Date.values) + pd.Timedelta(days=90)
+    elif ix == "datetime_noon":
+        df.index = pd.DatetimeIndex(df.Date.values) + pd.Timedelta(hours=12)
+    elif ix == "datetime_other":
+        df.index = pd.date_range("1950-01-01", periods=len(df), freq="D")
     elif ix == "labels":
         df.index = ["r%05d" % ((i * 7919) % 100003) for i in range(len(df))]
     elif ix == "range":
@@ -239,5 +261,6 @@ def run_job_subprocess(job, hashseed="0", timeout=300):
 
 def pair_doc(rule, a, b, cut=None):
     d = {"rule": rule, "startA": a["start"], "startB": b["start"], "rowsA": a["rows"], "rowsB": b["rows"],
-         "statsA": a["stats"], "statsB": b["stats"], "finishedA": a["finished"], "finishedB": b["finished"], "cut": int(cut or 0)}
+         "statsA": a["stats"], "statsB": b["stats"], "finishedA": a["finished"], "finishedB": b["finished"], "cut": int(cut or 0),
+         "cropsA": a.get("crops", []), "cropsB": b.get("crops", [])}
     return d
